@@ -100,13 +100,33 @@ theorem conf_extended_time {k t} (h : Conf g_extended_time false k t) :
     exact Safe.mono (by assumption) (fun _ => Time.wfVar.stop)
 
 
+theorem wfStop_1440 : (Time.fixed 1440).wfStop = true := by decide
+
+theorem conf_minute_dur {k t} (h : Conf g_minute false k t) :
+    ∃ x, k = [x] ∧ Good .minute buildMinute (fun d => 0 ≤ d ∧ d ≤ 59) x := by
+  obtain ⟨x, rfl, hx⟩ := conf_minute h
+  obtain ⟨hr, n, h0, h1, hp⟩ := hx
+  refine ⟨x, rfl, hr, ?_⟩
+  build_simp [buildMinute, hr, hp]
+  omega
+
 theorem conf_timespan {k t} (h : Conf g_timespan false k t) :
     ∃ x, k = [x] ∧ Good .timespan buildTimespan (fun s => s.wf = true) x := by
-  conf_unfold [g_timespan, g_timespan_plus, g_space] at h
-  conf_destruct [conf_time, conf_extended_time, conf_hour_minutes, conf_minute]
+  conf_unfoldk [g_timespan, g_timespan_plus] at h
+  conf_destruct [conf_time, conf_extended_time, conf_hour_minutes, conf_minute_dur]
   all_goals refine ⟨_, rfl, rfl, ?_⟩
   all_goals build_simp [buildTimespan, *]
-  all_goals trace_state
-  all_goals sorry
+  all_goals repeat safe_bind
+  all_goals simp [TimeSpan.wf, wfStop_1440, *]
+  all_goals omega
+
+/-- `time_selector = { timespan ~ ("," ~ timespan)* }`: a non-empty list of well-formed spans -/
+theorem conf_time_selector {k t} (h : Conf g_time_selector false k t) :
+    ∃ x, k = [x] ∧ Good .time_selector buildTimeSelector (fun l => l ≠ [] ∧ ∀ s ∈ l, s.wf = true) x := by
+  obtain ⟨k', rfl, hb⟩ := Conf.rule_shape h
+  refine ⟨_, rfl, rfl, ?_⟩
+  obtain ⟨x, xs, rfl, hall⟩ := conf_sep_list (fun _ _ => conf_timespan) hb
+  build_simp_only [buildTimeSelector]
+  exact Safe.mapM_ne x xs (fun y hy => (hall y hy).2)
 
 end OH.Proofs.SynTotal
